@@ -259,59 +259,158 @@ func genMalformed(r *lib.Rng) string {
 	return ws(r) + "<'" + genRe(r, 0) + "'" + ws(r) + r.Pick(countPool) + ws(r) + genDur(r, 0) + ">" + msg // commas missing
 }
 
-// genFile: a play file, 3-30 text lines (no newline inside, none ending in \r: bufio.ScanLines
-// would strip it before ParseLine sees the line).
-func genFile(r *lib.Rng) []string {
-	n := r.Range(3, 30)
-	bad := r.Intn(4) // 0: keep it clean if possible
+const testPlay = `{"some":"msg"}
+# Non echo comment
+#- non echo comment
+#+ echo comment
+[0.1s] {"an":"other"}
+[] {"an":"other"}
+<'^foo\s*',5,0.3h1.5m0.1s> {"send":"foos"}
+[0.1] {"an":"other"}
+<'^foo\s*',,10s> {"send":"foos"}
+<'^foo\s*',5,> {"send":"foos"}
+|+> [a-h]
+|accept> [R-Z]
+|->[0-9]
+|deny>  [#!&%]
+|reset>
+|A> [a-h]
+|D> [0-9]
+|r> 
+|X>
+|a> ^\/(?!\/)(.*?)
+[10ms]
+`
+
+func longLine(pre string, total int, post string) string {
+	return pre + strings.Repeat("=", total-len(pre)-len(post)) + post
+}
+
+// textCorpus: fixed file texts that run on every seed - line-end conventions, empty and blank
+// lines, unterminated last lines, and lines around bufio.Scanner's 64 KiB token limit.
+func textCorpus() [][]Chunk {
+	ts := []string{"", "\n", "a", "a\n", "a\n\n", "\n\na\n\n", "a\r\nb\r", "a\r\r\nb", "\r\n", "\r", "a\nb", "# c\r\n[5] hello\ngo",
+		"[1s] x\n|X>", "  \n\t\n# c\n \n", "[5] hello", "# only a comment, no newline", "a\n[x]\r\n<'p',1,1s> {\"a\":\">\"}\r\n|X>\r\nlast",
+		testPlay, strings.ReplaceAll(testPlay, "\n", "\r\n"), strings.TrimSuffix(testPlay, "\n"), testPlay + "[0.1]",
+		// around the limit: a raw line of 65535 bytes is the longest that is read
+		longLine("", 65535, ""), longLine("", 65535, "") + "\n", longLine("# ", 65535, "") + "\nafter\n", "before\n" + longLine("[1s] ", 65535, ""),
+		longLine("", 65534, "") + "\r\n" + "z\n", longLine("", 65535, "") + "\r\nz\r\n", // with its \r the second is 65536 raw bytes
+		longLine("", 65536, ""), longLine("", 65536, "") + "\n", "a\nb\n" + longLine("", 65536, "") + "\nc\nd\n", "a\n[5] x\n" + longLine("{", 70000, "}") + "\n|X>\n",
+	}
+	out := make([][]Chunk, len(ts))
+	for i, t := range ts {
+		out[i] = rle(t)
+	}
+	return out
+}
+
+// genText: the bytes of a play file: 0-25 lines of every kind, LF or CRLF (or mixed) line ends,
+// empty and blank lines, leading and trailing blank lines, with or without a final newline; every
+// twelfth file has a line just below or above 64 KiB somewhere.
+func genText(r *lib.Rng, i int) []Chunk {
+	n := r.Range(0, 25)
+	style := r.Intn(4) // 0 LF, 1 CRLF, 2 mixed, 3 LF
+	bad := r.Intn(4)   // 0: no malformed line on purpose
+	eol := func() string {
+		switch style {
+		case 1:
+			return "\r\n"
+		case 2:
+			return r.Pick([]string{"\n", "\r\n", "\n"})
+		}
+		return "\n"
+	}
 	var ls []string
 	for len(ls) < n {
 		var l string
-		switch x := r.Intn(10); {
-		case x < 6:
+		switch x := r.Intn(20); {
+		case x < 10:
 			l, _ = genPrinted(r)
-		case x < 7:
+		case x < 12:
 			l = r.Pick(corpus)
-		case x < 8:
+		case x < 14:
 			l = genRaw(r)
+		case x < 16:
+			l = r.Pick([]string{"", "", " ", "\t", "  "})
 		default:
 			if bad == 0 {
-				continue
-			}
-			l = genMalformed(r)
-		}
-		if strings.ContainsAny(l, "\n") || strings.HasSuffix(l, "\r") {
-			continue
-		}
-		if bad == 0 {
-			if w, _ := specLine(l); w.K == "error" {
-				continue
+				l = r.Pick(corpus)
+			} else {
+				l = genMalformed(r)
 			}
 		}
 		ls = append(ls, l)
 	}
-	return ls
+	if i%12 == 0 {
+		total := []int{65535, 65536, 65535, 70000, 65534}[(i/12)%5]
+		at := r.Intn(len(ls) + 1)
+		ll := longLine(r.Pick([]string{"", "# ", "[1s] ", "{", "|+> "}), total, r.Pick([]string{"", "}", " "}))
+		ls = append(ls[:at], append([]string{ll}, ls[at:]...)...)
+	}
+	var sb strings.Builder
+	for k := r.Intn(3) - 1; k > 0; k-- {
+		sb.WriteString(eol())
+	}
+	for k, l := range ls {
+		sb.WriteString(l)
+		if k+1 < len(ls) || r.Chance(1, 2) {
+			sb.WriteString(eol())
+		}
+	}
+	for k := r.Intn(3) - 1; k > 0; k-- {
+		sb.WriteString(eol())
+	}
+	return rle(sb.String())
 }
 
 var filtPats = []string{`[a-h]`, `[R-Z]`, `[0-9]`, `[#!&%]`, `^\s*{`, `"hb"`, `^foo`, `o$`, `.`, ``, `x|y`, `\d\d`, `^$`, `T`}
 var filtLines = []string{"ah", "ah#", "ah0", "Ah", "Az", "abcd efg", `{"hb":1}`, ` {"t":12}`, "foo", "TUV23", "TUV%", "TUV", "ACH", "tuv", "", "x", "y0", "zzz", "42", "hello"}
 
+// patterns whose meaning changes when they are not evaluated on their own: inline flags at the
+// start, top-level alternations, anchors, literals differing only in case; and lines that tell
+// the readings apart
+var flagPats = []string{`(?i)error`, `OK`, `ok`, `(?i)ok`, `Error`, `error`, `(?s)a.b`, `a.b`, `(?U)x+y`, `a|b`, `^x`, `y$`, `warn|fail`, `^look`, `this$`,
+	`(?i)^warn`, `FAIL`, `(?m)^b$`, `^b$`, `(?i)a|b`, `B`, `x`, `Y`}
+var flagLines = []string{"look at this", "ERROR 1", "error", "Error: x", "ok", "OK", "Ok then", "a\nb", "axb", "xy", "yx", "x", "y", "warn", "WARN", "fail", "FAIL",
+	"b", "B", "a", "A", "a\nb\nc", "this is it", "lookup", "XY", "Y"}
+
 // genFilter: 8-40 events; filter commands and received lines interleaved, with re-added patterns
-// and resets at random places.
+// and resets at random places; flags selects the pools above; dels adds deletes of patterns
+// (then the history runs on the Filter methods only).
 func genFilter(r *lib.Rng) []Ev {
 	n := r.Range(8, 40)
+	pats, lines := filtPats, filtLines
+	if r.Chance(2, 5) {
+		pats, lines = flagPats, flagLines
+	}
+	dels := r.Chance(1, 4)
 	np := r.Range(2, 6)
-	off := r.Intn(len(filtPats))
-	pat := func() string { return filtPats[(off+r.Intn(np))%len(filtPats)] }
+	off := r.Intn(len(pats))
+	pat := func() string { return pats[(off+r.Intn(np))%len(pats)] }
 	pAct := r.Range(15, 50)
 	var evs []Ev
+	// start with two patterns in the same list, so that every history has a list of two or more
+	first := r.Pick([]string{"accept", "deny"})
+	if r.Chance(3, 4) {
+		a, b := pat(), pat()
+		evs = append(evs, Ev{A: first, S: a}, Ev{A: first, S: b})
+		if first == "deny" {
+			evs = append(evs, Ev{A: "accept", S: r.Pick([]string{`.`, ``, pat()})})
+		}
+	}
 	for i := 0; i < n; i++ {
 		if r.Chance(pAct, 100) {
 			switch x := r.Intn(100); {
-			case x < 45:
+			case x < 42:
 				evs = append(evs, Ev{A: "accept", S: pat()})
-			case x < 80:
+			case x < 76:
 				evs = append(evs, Ev{A: "deny", S: pat()})
+			case x < 90:
+				if dels {
+					evs = append(evs, Ev{A: r.Pick([]string{"del-accept", "del-deny"}), S: pat()})
+				} else {
+					evs = append(evs, Ev{A: "reset"})
+				}
 			case x < 96:
 				evs = append(evs, Ev{A: "reset"})
 			default:
@@ -319,8 +418,8 @@ func genFilter(r *lib.Rng) []Ev {
 			}
 			continue
 		}
-		l := r.Pick(filtLines)
-		if r.Chance(1, 6) {
+		l := r.Pick(lines)
+		if r.Chance(1, 8) {
 			l = randText(r, r.Range(0, 12))
 		}
 		evs = append(evs, Ev{S: l})
